@@ -115,8 +115,8 @@ def run(ctx):
             "release RMW (ARMv8 allows it) the validated value can be a mixture (regression of the repair 0bff03d?). %d of %d analysed executions; shortest: size %s program %s schedule %s"
             % (hb.get("hb_executions_with_unordered_validated_read", 0), hb.get("hb_executions_analysed", 0), n, prog, sch),
             {"counters": hb, "size": n, "program": prog, "schedule": sch,
-             "how_to_rerun": "%s one %s '%s' %s | %s   (EXTRA hb_* lines; C12_WHATIF=fadd_acqrel or load_acquire in the driver's environment re-runs the analysis with the writer acquiring: 0 remain)" % (exe, n, prog, sch, driver),
-             "anchors": ["iceoryx2-bb/lock-free/src/spmc/unrestricted_atomic.rs: store() load(Relaxed) + fetch_add(1, Release); Producer::__internal_update_write_cell / UnrestrictedAtomicMgmt::__internal_update_write_cell fetch_add(1, Release); load() compare_exchange(w, w, AcqRel, SeqCst)"]},
+             "how_to_rerun": "%s one %s '%s' %s | %s   (EXTRA hb_* lines)" % (exe, n, prog, sch, driver),
+             "anchors": ["iceoryx2-bb/lock-free/src/spmc/unrestricted_atomic.rs: the three write_cell.fetch_add(1, ..) (store, Producer::__internal_update_write_cell, UnrestrictedAtomicMgmt::__internal_update_write_cell) must acquire (AcqRel since 0bff03d); load() validates with compare_exchange(w, w, AcqRel, SeqCst)"]},
             key="seqlock:validated-read-unordered-with-cell-reuse")
     missing = [k for k in REQUIRED if r["extra"].get(k, 0) == 0]
     if missing and not r["failed_jobs"]:
@@ -149,7 +149,8 @@ def run(ctx):
         "sequentially consistent interleaving, at byte granularity for the value copies (weak-memory behaviours are not exhibited by the model; the memory ordering of every access site is pinned by the trace comparison)",
         "fewer than 2^64 updates of one entry (u64 write_cell does not wrap): explicit hypothesis `lenN (written g) < W64` of every theorem",
         "the reader's raw copy is not a gated access (load() reaches the cells through data.as_ptr(), not UnsafeCell::get): in the G1 tie it happens in the scheduler step of the preceding write_cell access; the coarse model is proved to be a projection of the byte-granular one; real overlap of copies only in the ungated real-thread runs",
-        "a lapped reader's plain read races the writer's plain write of the same cell (c12_no_racy_read_refuted): the bytes are discarded by the validation; formally a data race in the Rust memory model, not observable through the API",
+        "a lapped reader's plain read races the writer's plain write of the same cell (c12_no_racy_read_refuted): the bytes are discarded by the validation; the generic sequence-lock caveat (formally a data race in the Rust memory model), not observable through the API, counted by the happens-before analysis but not reported as a violation",
+        "weak memory is not modelled in Coq: the C11 happens-before analysis of the compared traces (with the observed orderings) stands in for it; it found the missing writer-side acquire repaired by 0bff03d",
         "tie = trace equality on the explored schedules; the gate (cargo paths override of iceoryx2-pal-concurrency-sync) is generated from /repo's current source",
     ]
 
